@@ -34,6 +34,7 @@ func init() {
 		"(*encoding/xml.Encoder).EncodeElement": extEncode,
 		"(*encoding/xml.Encoder).EncodeToken":   extEncodeToken,
 		"archive/zip.NewReader":       extZipNewReader,
+		"archive/zip.OpenReader":      extZipOpenReader,
 		"(*strings.Builder).WriteString": extBuilderWrite,
 		"(*strings.Builder).String":      extBuilderString,
 		"(*archive/zip.File).Open":    extZipFileOpen,
@@ -780,4 +781,31 @@ func (g *Gen) sscanfPrefixD(format, p, q string) (okF, valF string) {
 	}
 	g.axioms = append(g.axioms, ax)
 	return
+}
+
+
+// extZipOpenReader: zip.OpenReader(path) returns a *zip.ReadCloser whose embedded Reader (seen by callees through the
+// interior key of (rc, "Reader")) lists non-nil entries, exactly as zip.NewReader's result does.
+func extZipOpenReader(f *frame, cm *ssa.CallCommon, args []Val, st *State, name string, resT types.Type, pos token.Pos) Val {
+	c := f.c
+	g := c.g
+	r := extNonNilOnSuccess(f, cm, args, st, name, resT, pos)
+	rc, err := r.Tuple[0], r.Tuple[1]
+	rct := rc.Typ.Underlying().(*types.Pointer).Elem()
+	rdt, ok := fieldAt(rct, "", "Reader")
+	if !ok {
+		return r
+	}
+	ft, ok := fieldAt(rdt, "", "File")
+	if !ok {
+		return r
+	}
+	key := interiorKey(rc.T, "Reader")
+	fh := g.TE.FieldHeap(rdt, "File", g.TE.SortOf(ft))
+	et := ft.Underlying().(*types.Slice).Elem()
+	ch := g.TE.CellHeap(et)
+	files := fmt.Sprintf("(select %s %s)", st.Heap(fh), key)
+	c.assume(st, fmt.Sprintf("(=> (= (itag %s) 0) (and (slice_ok %s %s) (forall ((i Int)) (! (=> (and (<= 0 i) (< i (slen %s))) (and (not (= (select %s (selem %s i)) nil)) (alloc (select %s (selem %s i)) %s))) :pattern ((selem %s i))))))", err.T, files, st.next, files, st.Heap(ch), files, st.Heap(ch), files, st.next, files))
+	c.assumed["archive/zip.OpenReader: on success every element of the embedded Reader.File is non-nil"] = true
+	return r
 }
